@@ -3,6 +3,7 @@
 mod ctl;
 mod dynh;
 mod hist;
+mod lock;
 mod raw;
 mod sched;
 mod seq;
@@ -49,6 +50,8 @@ fn main() {
     "chan-seq" => chan_seq(&args),
     "chan-sched" => chan_sched(&args),
     "topic-seq" => topic_seq(&args),
+    "lock-seq" => lock_seq(&args),
+    "lock-sched" => lock_sched(&args),
     _ => {
       eprintln!("usage: fv <chan-seq> [--key value]...");
       std::process::exit(2);
@@ -215,4 +218,58 @@ fn topic_seq(a: &Args) {
   }
   w.flush().unwrap();
   println!("{}", serde_json::json!({"histories": n_hist, "hung": n_hung, "panics": n_panic}));
+}
+
+fn lock_seq(a: &Args) {
+  let programs = a.num("programs", 20);
+  let ops = a.num("ops", 60) as usize;
+  let seed = a.num("seed", 1);
+  let out = a.get("out", "/dev/stdout");
+  let mut w = std::io::BufWriter::new(std::fs::File::create(&out).expect("create out"));
+  let (mut n_hist, mut n_hung, mut n_panic) = (0u64, 0u64, 0u64);
+  for p in 0..programs {
+    let cfg = lock::SeqCfg { rw: p % 2 == 1, ops, seed: seed.wrapping_mul(9_000_011).wrapping_add(p) };
+    let gen_ = hist::begin();
+    let r = with_watchdog(move || lock::run_seq(&cfg), Duration::from_secs(10), gen_);
+    let mut recs = hist::take();
+    match r {
+      Ok(Ok(())) => {}
+      Ok(Err(msg)) => { n_panic += 1; recs.push(serde_json::json!({"k":"panic","msg":msg}).to_string()); }
+      Err(()) => { n_hung += 1; recs.push(serde_json::json!({"k":"stuck_driver"}).to_string()); }
+    }
+    hist::begin();
+    for r in recs { writeln!(w, "{r}").unwrap(); }
+    n_hist += 1;
+  }
+  w.flush().unwrap();
+  println!("{}", serde_json::json!({"histories": n_hist, "hung": n_hung, "panics": n_panic}));
+}
+
+fn lock_sched(a: &Args) {
+  let runs = a.num("runs", 20);
+  let seed = a.num("seed", 1);
+  let strategies = a.list("strategies", "random,pct,pct5");
+  let out = a.get("out", "/dev/stdout");
+  let mut w = std::io::BufWriter::new(std::fs::File::create(&out).expect("create out"));
+  let (mut n, mut blocked, mut stuck, mut leaked, mut steps, mut step_limit) = (0u64, 0u64, 0u64, 0u64, 0u64, 0u64);
+  for r in 0..runs {
+    let ru = r as usize;
+    let cfg = lock::SchedCfg {
+      rw: ru % 2 == 1,
+      threads: 2 + (ru / 2) % 2,
+      rounds: 1 + (ru / 4) % 3,
+      seed: seed.wrapping_mul(1_000_003).wrapping_add(r),
+      strategy: strategies[ru % strategies.len()].clone(),
+    };
+    let st = lock::run_sched(&cfg);
+    n += 1;
+    steps += st.outcome.steps;
+    if !st.outcome.blocked.is_empty() && !st.outcome.all_done { blocked += 1; }
+    if st.outcome.stuck { stuck += 1; }
+    if st.outcome.step_limit { step_limit += 1; }
+    leaked += st.leaked as u64;
+    for r in &st.records { writeln!(w, "{r}").unwrap(); }
+  }
+  w.flush().unwrap();
+  println!("{}", serde_json::json!({"histories": n, "blocked": blocked, "stuck": stuck, "step_limit": step_limit, "leaked_threads": leaked, "steps": steps}));
 }
